@@ -49,6 +49,7 @@ type program struct {
 	used   map[int]bool           // hook tokens in use
 	next   int
 	direct bool // the transaction calls the precompile itself (root = one pre node, sender = env.direct)
+	create map[int]bool // call nodes that are CREATE instructions: Body = init code, To = address of the new contract
 	body   func(depth int, ctx common.Address, static bool) []*evmx.Node
 	depth  int // depth of the frame being generated (for genPre)
 }
@@ -153,7 +154,7 @@ func (e *env) attachGen(rng *rand.Rand, p *program) {
 // directly (uncaught; the gas sweep cuts inside the native action) and once inside a frame that reverts after the call
 // and is caught by its caller; late-failing variants inside a caught frame.  Built by rejection sampling on the same
 // argument generator, so they stay in step with it.
-var directedVariants = []string{"delegateV2", "undelegateV2", "redelegateV2", "withdraw", "approveShares", "transferShares", "transferFromShares",
+var directedVariants = []string{"delegateV2", "undelegateV2", "redelegateV2", "withdraw", "approveShares", "approveShares/zero-existing", "transferShares", "transferFromShares",
 	"crossChain/origin", "crossChain/wfx", "crossChain/tst", "crossChain/hook-token", "cancelSendToExternal", "increaseBridgeFee/origin",
 	"increaseBridgeFee/wfx", "bridgeCall/value", "bridgeCall/no-value", "bridgeCall/no-value+wfx", "bridgeCall/no-value+tst", "bridgeCall/no-value+wfx+tst",
 	"bridgeCall/value+tst", "executeClaim", "delegationRewards", "delegation", "allowanceShares", "slashingInfo", "validatorList", "bridgeCoinAmount",
@@ -166,6 +167,12 @@ var directedVariants = []string{"delegateV2", "undelegateV2", "redelegateV2", "w
 	"redelegateV2/unknown-validator", "redelegateV2/keeper-rejects", "withdraw/unknown-validator", "transferShares/unknown-validator",
 	"transferShares/keeper-rejects", "transferFromShares/unknown-validator", "cancelSendToExternal:fail", "increaseBridgeFee/origin:fail",
 	"executeClaim/no-such-claim", "executeClaim/late-cannot-execute", "crossChain/origin/bad-sum", "crossChain/wfx/zero", "bridgeCall/value+wfx/late-token-fails"}
+
+// variants that are also run from the far end of a DELEGATECALL / CALLCODE chain
+var chainVariants = map[string]bool{"delegateV2": true, "undelegateV2": true, "redelegateV2": true, "withdraw": true, "approveShares": true,
+	"transferShares": true, "transferFromShares": true, "crossChain/origin": true, "crossChain/wfx": true, "cancelSendToExternal": true,
+	"increaseBridgeFee/origin": true, "bridgeCall/value": true, "bridgeCall/no-value+tst": true, "executeClaim": true,
+	"transferFromShares/late-insufficient-shares": true, "executeClaim/late-cannot-execute": true, "crossChain/wfx/late-bad-receipt": true}
 
 // benignHook: the hook body returns normally and contains a state-changing precompile call (the point of a hook token:
 // a native action inside the native action)
@@ -235,11 +242,16 @@ func (e *env) directed(rng *rand.Rand) []*program {
 		if i := len(want) - len(":fail"); i > 0 && want[i:] == ":fail" {
 			want, wantMode = want[:i], "fail"
 		}
-		nShape := 2
+		shapes := []int{0, 1}
 		if wantsFailure(want, wantMode) {
-			nShape = 3 // … and once with the failure caught at the call itself (the caller goes on and the transaction succeeds)
+			shapes = append(shapes, 2) // … and once with the failure caught at the call itself (the caller goes on and the transaction succeeds)
 		}
-		for shape := 0; shape < nShape; shape++ {
+		if chainVariants[want] {
+			// … and from the far end of a chain of code-borrowing frames (the precompile's direct caller is still the root
+			// contract): DELEGATECALL -> DELEGATECALL reverted after the call and caught at the top (3), CALLCODE -> DELEGATECALL kept (4)
+			shapes = append(shapes, 3, 4)
+		}
+		for _, shape := range shapes {
 			var got *program
 			for try := 0; try < 40000 && got == nil; try++ {
 				p := &program{meta: map[int]*meta{}, nodes: map[int]*evmx.Node{}, ctxOf: map[int]common.Address{}, inner: map[int]*inner{}, used: map[int]bool{}}
@@ -253,6 +265,9 @@ func (e *env) directed(rng *rand.Rand) []*program {
 				nd := &evmx.Node{ID: 10}
 				p.depth = 2 // hook bodies of directed programs stay small
 				mt := e.genPre(rng, p, nd, ctx, false)
+				if shape >= 3 && len(p.inner) > 0 {
+					continue // hook bodies allocate frame contracts of their own
+				}
 				if mt.variant != want || nd.Kind != evmx.KCall || nd.Gas != 0 || nd.Swallow != (shape == 2) || (mt.mode == "fail") != wantsFailure(want, wantMode) {
 					continue
 				}
@@ -270,6 +285,26 @@ func (e *env) directed(rng *rand.Rand) []*program {
 				}
 				if shape == 0 || shape == 2 {
 					p.root = []*evmx.Node{mk(1, e.pool[0]), nd, mk(2, e.pool[0])}
+				} else if shape >= 3 {
+					p.addrs = []common.Address{e.pool[0], e.pool[1], e.pool[2]}
+					inBody := []*evmx.Node{nd}
+					if shape == 3 && mt.mode != "fail" {
+						rv := &evmx.Node{Op: "revert", ID: 4}
+						p.nodes[4], p.ctxOf[4] = rv, e.pool[0]
+						inBody = append(inBody, rv)
+					} else {
+						inBody = append(inBody, mk(7, e.pool[0]))
+					}
+					c6 := &evmx.Node{Op: "call", ID: 6, Kind: evmx.KDelegate, To: e.pool[2], Swallow: false, Body: inBody}
+					p.nodes[6], p.ctxOf[6] = c6, e.pool[0]
+					k5 := evmx.KDelegate
+					if shape == 4 {
+						k5 = evmx.KCallCode
+					}
+					c5 := &evmx.Node{Op: "call", ID: 5, Kind: k5, To: e.pool[1], Swallow: shape == 3, Body: []*evmx.Node{mk(3, e.pool[0]), c6}}
+					p.nodes[5], p.ctxOf[5] = c5, e.pool[0]
+					p.root = []*evmx.Node{mk(1, e.pool[0]), c5, mk(2, e.pool[0])}
+					e.cnt(fmt.Sprintf("directed:code-borrowing-chain:shape%d", shape))
 				} else {
 					rv := &evmx.Node{Op: "revert", ID: 4}
 					body := []*evmx.Node{mk(3, e.pool[1]), nd}
@@ -363,7 +398,13 @@ func (e *env) genPre(rng *rand.Rand, p *program, nd *evmx.Node, ctx common.Addre
 	case "withdraw":
 		data, err = sabi.Pack(m, val)
 	case "approveShares":
-		data, err = sabi.Pack(m, val, common.BigToAddress(big.NewInt(int64(0x5000+nd.ID))), amt(1))
+		if mode == "ok" && rng.Intn(4) == 0 {
+			// boundary value: revoke (shares = 0) an allowance that exists (every frame contract granted one to the sink in set-up)
+			variant = m + "/zero-existing"
+			data, err = sabi.Pack(m, val, e.sink, new(big.Int))
+		} else {
+			data, err = sabi.Pack(m, val, common.BigToAddress(big.NewInt(int64(0x5000+nd.ID))), amt(1))
+		}
 	case "transferShares":
 		data, err = sabi.Pack(m, val, e.sink, amt(10))
 	case "transferFromShares":
